@@ -148,6 +148,14 @@ def _find(mir, pat):
     fn = [f for n, f in mir.fns.items() if re.search(pat, n)]
     return fn[0].parse() if len(fn) == 1 else None
 
+def find_command_loop(mir):
+    """the controller's command loop: the closure nested in the scope closure of Sampler::new whose body calls recv_timeout on the command channel
+    (closure numbering shifts when another closure is added before it)"""
+    hits = []
+    for n, f in mir.fns.items():
+        if re.search(r'sampler::<impl at src/sampler.rs:\d+:1: \d+:\d+>::new::\{closure#0\}::\{closure#1\}::\{closure#\d+\}$', n) and any('Receiver::<SamplerCommand>::recv_timeout' in l for l in f._lines): hits.append(f)
+    return hits[0].parse() if len(hits) == 1 else None
+
 def chain_flush(rep, mir, L):
     """ChainProcess::flush (what the controller calls for every chain on a Flush command): the storage's flush outcome is symbolic"""
     fn = _find(mir, r'sampler::<impl at src/sampler.rs:\d+:1: \d+:\d+>::flush$')
@@ -279,7 +287,7 @@ LOOP_FAULTS = ('storage_flush:err', 'trace_inspect:err', 'respond:closed')    # 
 
 def controller_loop(rep, mir, L):
     """(A) the controller thread's command loop (`main_loop`), every fallible call's outcome symbolic"""
-    loop = _find(mir, r'sampler::<impl at src/sampler.rs:\d+:1: \d+:\d+>::new::\{closure#0\}::\{closure#1\}::\{closure#0\}$')
+    loop = find_command_loop(mir)
     if loop is None: rep.unknown('C13.4 controller command loop not found in the MIR'); return
     A = RealAlg(); vm = VM(mir, A); install_misc(vm); _storage_models(vm); vm.loop_bound = 64
     if 'SamplerCommand' not in vm.enums: rep.unknown('C13.4 SamplerCommand layout unknown'); return
